@@ -233,3 +233,45 @@ fn std_u16_parse_model() {
         Err(_) => assert!(!ok || v > 65535),
     }
 }
+
+// ---- prelude: str pattern functions at byte level (bounded: haystack of at most 4 bytes over
+//      {' ', '\r', '0', '+', 'a'}, needle of at most 2 bytes) ---------------------------------------------
+fn sym_str<'a>(buf: &'a mut [u8; 4], max: usize) -> &'a str {
+    let len: usize = kani::any();
+    kani::assume(len <= max);
+    let mut i = 0;
+    while i < 4 {
+        let k: u8 = kani::any();
+        kani::assume(k < 5);
+        buf[i] = [b' ', b'\r', b'0', b'+', b'a'][k as usize];
+        i += 1;
+    }
+    std::str::from_utf8(&buf[..len]).unwrap()
+}
+
+#[kani::proof]
+#[kani::unwind(8)]
+fn std_str_patterns() {
+    let mut b1 = [0u8; 4];
+    let mut b2 = [0u8; 4];
+    let s = sym_str(&mut b1, 4);
+    let p = sym_str(&mut b2, 2);
+    let (sb, pb) = (s.as_bytes(), p.as_bytes());
+    // axiom_pat_starts_str / axiom_pat_ends_str
+    let pre = pb.len() <= sb.len() && &sb[..pb.len()] == pb;
+    let suf = pb.len() <= sb.len() && &sb[sb.len() - pb.len()..] == pb;
+    assert!(s.starts_with(p) == pre);
+    assert!(s.ends_with(p) == suf);
+    // axiom_pat_starts_char / axiom_pat_find_char for the ASCII chars ppp uses
+    assert!(s.starts_with(' ') == (!sb.is_empty() && sb[0] == b' '));
+    let mut first = sb.len();
+    let mut i = sb.len();
+    while i > 0 {
+        i -= 1;
+        if sb[i] == b'\r' { first = i; }
+    }
+    assert!(s.find('\r') == if first < sb.len() { Some(first) } else { None });
+    // equality and emptiness are byte-wise
+    assert!((s == p) == (sb == pb));
+    assert!(s.is_empty() == sb.is_empty() && s.len() == sb.len());
+}
